@@ -61,7 +61,11 @@ def ehOf (j : Json) : E ErrorHandler := do
   let kind ← match ← str j "kind" with
     | "default" => pure EHKind.default
     | "www" => pure EHKind.wwwAuthenticate
-    | "redirect" => pure (EHKind.redirect (boolD j "render" true) (natD j "code" 0))
+    | "redirect" =>
+      -- `render`: does the `to` template render for the request of the case; `rendered`: to what (nominally — the
+      -- model does not look at the value)
+      pure (EHKind.redirect (if boolD j "render" true then .value (strD j "rendered" "") else .fails)
+        (natD j "code" 0))
     | k => throw s!"bad error handler kind {k}"
   pure ⟨← condOf j, kind⟩
 
